@@ -342,6 +342,38 @@ def _corrupt_case(args):
     d.mkdir()
     out = []
     cnt = 0
+    memo = {}
+
+    def viols_of(idx):
+        """Violations reported for the base file with the corruptions idx
+        (a tuple of menu indices; () = the clean base file)."""
+        if idx not in memo:
+            q = d / "m.rtdc"
+            shutil.copy(base, q)
+            with h5py.File(q, "a") as h5:
+                for i in idx:
+                    menu[i][2](h5)
+            try:
+                memo[idx] = set(run_checker(q)[0])
+            except BaseException:
+                memo[idx] = None
+            q.unlink()
+        return memo[idx]
+
+    def reported(i, combo, viol):
+        """Is corruption i visible in `viol`?  By the wording dclab uses
+        today, or - should the wording change - by a violation that is
+        not there without corruption i."""
+        if any(menu[i][3] in v for v in viol):
+            return True
+        without = viols_of(tuple(j for j in combo if j != i))
+        if without is not None and set(viol) - without:
+            return True
+        # the other corruption may produce the very same message: then the
+        # messages that i produces on its own must be in the report
+        alone, clean = viols_of((i,)), viols_of(())
+        return alone is not None and clean is not None and bool(
+            (alone - clean) & set(viol))
     try:
         base = base_file(d / "base.rtdc", seed, fl)
         for combo in combos:
@@ -373,7 +405,7 @@ def _corrupt_case(args):
                         "wrong-exit-code", case, f"{names}: {prob}",
                         dict(tags, what=names[0])))
             for i in combo:
-                if not any(menu[i][3] in v for v in viol):
+                if not reported(i, tuple(combo), viol):
                     out.append(violation(
                         CK, "inconsistency-not-reported", case,
                         f"corruption '{menu[i][0]}' (with {names}) is not "
@@ -390,14 +422,18 @@ def _corrupt_case(args):
                         # (event count, samples per event, roi size) when
                         # compress appends its log; external links are
                         # resolved (the data are copied).
-                        gone = ["external link"]
-                        if task == "compress":
-                            gone += ["roi size", "samples per event",
-                                     "event count", "index feature"]
-                        v1 = [v for v in viol
-                              if not any(r in v for r in gone)]
-                        v2 = [v for v in v2
-                              if not any(r in v for r in gone)]
+                        # Decided by the kind of corruption, not by the
+                        # wording of the messages: those corruptions are
+                        # not compared.
+                        group = menu[combo[0]][1]
+                        rectified = group == "extlink" or (
+                            task == "compress" and (
+                                group.startswith("len") or group == "index"
+                                or group.startswith("imaging:roi size")
+                                or group == "fluorescence:samples per event"))
+                        if rectified:
+                            continue
+                        v1 = list(viol)
                         if sorted(v2) != sorted(v1):
                             out.append(violation(
                                 CK, "copy-gets-other-violations", case,
